@@ -108,12 +108,13 @@ def _observe(t, ref, periodic, discrete=True, sasa=False):
     ca = [a.index for a in t.topology.atoms if a.name == "CA"]
     pairs = [(ca[i], ca[j]) for i in range(0, len(ca), 3) for j in range(i + 1, len(ca), 4)]
     o = {}
-    o["distances"] = md.compute_distances(t, pairs, periodic=periodic)[0]
-    o["angles"] = md.compute_angles(t, [(ca[i], ca[i + 1], ca[i + 2]) for i in range(len(ca) - 2)], periodic=periodic)[0]
-    o["phi"] = md.compute_phi(t, periodic=periodic)[1][0]
-    o["psi"] = md.compute_psi(t, periodic=periodic)[1][0]
-    o["chi1"] = md.compute_chi1(t, periodic=periodic)[1][0]
-    o["contacts"] = md.compute_contacts(t, [[0, 9], [2, 14], [5, 20]], scheme="closest-heavy", periodic=periodic)[0][0]
+    one = t[-1:]          # the frame under test on its own, for the observables that pool frames (hydrogen-bond frequency)
+    o["distances"] = md.compute_distances(t, pairs, periodic=periodic)[-1]
+    o["angles"] = md.compute_angles(t, [(ca[i], ca[i + 1], ca[i + 2]) for i in range(len(ca) - 2)], periodic=periodic)[-1]
+    o["phi"] = md.compute_phi(t, periodic=periodic)[1][-1]
+    o["psi"] = md.compute_psi(t, periodic=periodic)[1][-1]
+    o["chi1"] = md.compute_chi1(t, periodic=periodic)[1][-1]
+    o["contacts"] = md.compute_contacts(t, [[0, 9], [2, 14], [5, 20]], scheme="closest-heavy", periodic=periodic)[0][-1]
     if not periodic:
         o["rmsd"] = md.rmsd(md.Trajectory(t.xyz.copy(), t.topology), ref, 0) ** 2
         o["rg"] = md.compute_rg(t)
@@ -121,13 +122,13 @@ def _observe(t, ref, periodic, discrete=True, sasa=False):
         o["asphericity"] = md.asphericity(t)
         o["drid"] = md.compute_drid(t, atom_indices=np.array(ca))[0]
     if discrete:
-        o["baker_hubbard"] = sorted(tuple(int(x) for x in r) for r in md.baker_hubbard(t, periodic=periodic))
+        o["baker_hubbard"] = sorted(tuple(int(x) for x in r) for r in md.baker_hubbard(one, periodic=periodic))
         if not periodic:
             ks = md.kabsch_sander(t)[0].tocoo()
             o["kabsch_sander"] = sorted((int(r), int(c)) for r, c in zip(ks.row, ks.col))
             o["dssp"] = "".join(md.compute_dssp(t, simplified=False)[0])
-        o["neighbors"] = sorted(md.compute_neighbors(t, 0.45, np.array(ca[:3]), periodic=periodic)[0].tolist())
-        nl = md.compute_neighborlist(t, 0.45, periodic=periodic)
+        o["neighbors"] = sorted(md.compute_neighbors(t, 0.45, np.array(ca[:3]), periodic=periodic)[-1].tolist())
+        nl = md.compute_neighborlist(t, 0.45, frame=t.n_frames - 1, periodic=periodic)
         o["neighborlist"] = [sorted(int(v) for v in nl[i]) for i in ca]
     if sasa:
         sub = t.atom_slice(list(range(120)))
@@ -164,7 +165,13 @@ def _protein_case(task):
     rb = md.Trajectory(Rn.astype(np.float32)[None], t.topology)
     if periodic:
         cv = (np.array(param["cell"], dtype=float) * 0.5).astype(np.float32)[None]
-        a.unitcell_vectors = cv; b.unitcell_vectors = cv
+        # the frame under test is the LAST of two: the first one has the same coordinates in a cell that shares a_x, b_x and c_x with it
+        # but is taller and more tilted (constant-area style): the invariance is a per-frame statement whatever precedes the frame
+        c0 = np.array(param["cell"], dtype=float) * 0.5
+        c0[1, 1] *= 1.25; c0[2, 1] += 0.3 * c0[1, 1]; c0[2, 2] *= 1.4
+        a = md.Trajectory(np.stack([a.xyz[0], a.xyz[0]]), t.topology); b = md.Trajectory(np.stack([b.xyz[0], b.xyz[0]]), t.topology)
+        cv2 = np.stack([c0.astype(np.float32), cv[0]])
+        a.unitcell_vectors = cv2; b.unitcell_vectors = cv2
     discrete = exact or periodic or (kind == "translate" and mag < 12)
     oa = _observe(a, ref, periodic, discrete, sasa)
     ob = _observe(b, rb, periodic, discrete, sasa)
